@@ -2,10 +2,18 @@
 // model: a mapping is a view of the file node's content (MAP_SHARED semantics: stores
 // through the mapping are the file's content and are seen by every other mapping).
 // Munmap marks the view dead; the engine reports any later access through it as a fault.
+//
+// Native replay normally cannot observe such an access (a Go slice cannot be revoked).
+// With VERIF_REAL_UNMAP=1 - set by the replay driver for exactly those counterexamples -
+// every mapping is its own anonymous memory region kept coherent with the file content
+// at every scheduling point (threads are cooperative, so only one writer runs between two
+// scheduling points), and Munmap really unmaps it: a later access is a real SIGSEGV.
 package vmmap
 
 import (
 	"errors"
+	"os"
+	"syscall"
 
 	"golang.org/x/telemetry/internal/vrt"
 	"golang.org/x/telemetry/internal/vrt/vos"
@@ -21,6 +29,32 @@ var (
 	FailMmap func(name string) error
 	Mapped   int // live mappings (leak accounting)
 )
+
+type view struct {
+	node *vos.Node
+	buf  []byte
+	snap []byte
+}
+
+var (
+	views     []*view
+	realUnmap = !vrt.IsSymbolic() && os.Getenv("VERIF_REAL_UNMAP") != ""
+)
+
+// sync makes all views and the file content agree again (native real-unmap mode only).
+func sync() {
+	for _, v := range views {
+		for i := range v.buf {
+			if v.buf[i] != v.snap[i] && i < len(v.node.Data) {
+				v.node.Data[i] = v.buf[i]
+			}
+		}
+	}
+	for _, v := range views {
+		n := copy(v.buf, v.node.Data)
+		copy(v.snap, v.buf[:n])
+	}
+}
 
 func Mmap(f *vos.File) (*Data, error) {
 	if FailMmap != nil {
@@ -41,6 +75,17 @@ func Mmap(f *vos.File) (*Data, error) {
 		return nil, errors.New("mmap: not a regular file")
 	}
 	Mapped++
+	if realUnmap {
+		sync()
+		buf, err := syscall.Mmap(-1, 0, int(size), syscall.PROT_READ|syscall.PROT_WRITE, syscall.MAP_ANON|syscall.MAP_PRIVATE)
+		if err != nil {
+			return nil, err
+		}
+		copy(buf, n.Data[:size])
+		views = append(views, &view{node: n, buf: buf, snap: append([]byte(nil), buf...)})
+		vrt.SyncHook = sync
+		return &Data{f, buf, nil}, nil
+	}
 	return &Data{f, vrt.AliasBytes(n.Data[:size:size]), nil}, nil
 }
 
@@ -48,7 +93,17 @@ func Munmap(d *Data) error {
 	if d.Data == nil {
 		return nil
 	}
-	vrt.MarkDead(d.Data)
 	Mapped--
+	if realUnmap {
+		sync()
+		for i, v := range views {
+			if &v.buf[0] == &d.Data[0] {
+				views = append(views[:i], views[i+1:]...)
+				break
+			}
+		}
+		return syscall.Munmap(d.Data)
+	}
+	vrt.MarkDead(d.Data)
 	return nil
 }
